@@ -68,9 +68,77 @@ def _emitter_tag():
     return (tag or "unknown"), "<".join(chain[:4])
 
 
+class LoggingEnviron(object):
+    """Stands in for os.environ: every lookup made while a world is active is noted in the
+    SimEnv ("environ:<NAME>"), including lookups of variables that are not set, so that the
+    search can perturb exactly the variables the system under test looks at."""
+
+    def __init__(self, data):
+        self._data = data
+
+    def _note(self, key):
+        env = WORLD.env
+        if env is not None and isinstance(key, str):
+            env.note("environ:" + key)
+
+    def __getitem__(self, key):
+        self._note(key)
+        return self._data[key]
+
+    def get(self, key, default=None):
+        self._note(key)
+        return self._data.get(key, default)
+
+    def __contains__(self, key):
+        self._note(key)
+        return key in self._data
+
+    def __setitem__(self, key, value):
+        self._data[key] = value
+
+    def __delitem__(self, key):
+        del self._data[key]
+
+    def __iter__(self):
+        env = WORLD.env
+        if env is not None:
+            env.note("environ:*")
+        return iter(list(self._data))
+
+    def __len__(self):
+        return len(self._data)
+
+    def keys(self):
+        return list(iter(self))
+
+    def items(self):
+        return [(k, self._data[k]) for k in iter(self)]
+
+    def values(self):
+        return [self._data[k] for k in iter(self)]
+
+    def copy(self):
+        return dict(self.items())
+
+    def setdefault(self, key, value):
+        self._note(key)
+        return self._data.setdefault(key, value)
+
+    def pop(self, key, *a):
+        return self._data.pop(key, *a)
+
+    def update(self, *a, **kw):
+        self._data.update(*a, **kw)
+
+    def clear(self):
+        self._data.clear()
+
+
 def install():
     if _real:
         return
+    _real["os.environ"] = os.environ
+    os.environ = LoggingEnviron(dict(os.environ))
     _real["open"] = builtins.open
     _real["isdir"] = os.path.isdir
     _real["isfile"] = os.path.isfile
